@@ -178,6 +178,24 @@ theorem vm_om2_exact {C G thr} {Jcls : List (List PS)} (h : Setting C G thr Jcls
   rintro ⟨x, rfl, t⟩
   exact omega2_cover C G hsub t
 
+/-- **C26 from the driver's tests alone**: if the decidable tests `settingB` and `negClosedB`
+    (whose values the driver reports for the shipped crystal, ops and jump classes) hold, both
+    networks of `VacancyMediated.generate(Nthermo)` classify their transitions exactly once. -/
+theorem vm_exact_of_tests {C G thr} {Jcls : List (List PS)} (hs : settingB C G thr Jcls.flatten = true)
+    (hn : negClosedB Jcls.flatten = true) (Nthermo : Nat) :
+    ((netPairs (vmGenerate C G thr Jcls Nthermo).om1).Nodup ∧
+      ∀ x y, (some x, some y) ∈ netPairs (vmGenerate C G thr Jcls Nthermo).om1 ↔
+        IsTrans1 (vmGenerate C G thr Jcls Nthermo).kinetic.states Jcls.flatten x y ∧
+          (x ∈ (vmGenerate C G thr Jcls Nthermo).thermo.states ∨ y ∈ (vmGenerate C G thr Jcls Nthermo).thermo.states)) ∧
+    ((netPairs (vmGenerate C G thr Jcls Nthermo).om2).Nodup ∧
+      ∀ p, p ∈ netPairs (vmGenerate C G thr Jcls Nthermo).om2 ↔
+        ∃ x, p = (some x, some x.neg) ∧ IsTrans2 (vmGenerate C G thr Jcls Nthermo).kinetic.states Jcls.flatten x) := by
+  have hneg : ∀ j ∈ Jcls.flatten, j.neg ∈ Jcls.flatten := by
+    intro j hj
+    simp only [negClosedB, List.all_eq_true, List.contains_iff_mem] at hn
+    exact hn j hj
+  exact ⟨vm_om1_exact (settingB_sound hs) hneg Nthermo, vm_om2_exact (settingB_sound hs) hneg Nthermo⟩
+
 /-! ### non-vacuity: the example setting of C24 is reversal-symmetric -/
 
 example : NetSetting C24.Example.C C24.Example.G
